@@ -33,7 +33,7 @@ META = {
         "quick": {"evaluations": 4000, "distinct_nontrivial": 500, "tables": {"strategy/insert": 1000, "strategy/concat": 1000, "kind/fermionic": 500, "roundtrip": 2000, "hook/plan-compared": 2000, "feature/nested": 50, "feature/single-axis-group": 300, "feature/conj-of-fused-before": 300, "feature/empty-group": 1000, "feature/signed-zeros": 500, "feature/group-of-5-or-more-axes": 1500, "feature/sector-with->=6-odd-charges-in-one-group": 100}},
         "thorough": {"evaluations": 300000, "distinct_nontrivial": 30000, "tables": {"strategy/concat": 50000, "kind/fermionic": 30000, "feature/nested": 3000}},
     },
-    "wall": {"quick": 300, "thorough": 1700},
+    "wall": {"quick": 900, "thorough": 1700},
 }
 
 
